@@ -24,7 +24,7 @@ from ..cfg import CFG
 from ..effects import classify_external, classify_method, open_mode
 from ..model import FuncInfo, Repo, dotted, load_repo
 from ..report import AnalysisError, Report
-from ..util import MUTATORS, base_of, body_walk, kwarg, src, store_targets
+from ..util import canon_func, MUTATORS, base_of, body_walk, kwarg, src, store_targets
 
 PG = "fickling.polyglot"
 DOC_TABLE = [
@@ -138,8 +138,24 @@ def check_read_only(repo: Repo, rep: Report):
         raise AnalysisError("fewer than 7 polyglot functions reached from identify_pytorch_file_format")
 
 
+def _all_keys_hold(test: ast.AST, pname: str, keysvar: str) -> bool:
+    """`all(<props>[k] for k in <keys>)` for any spelling of the bound variable k."""
+    if not (isinstance(test, ast.Call) and dotted(test.func) == "all" and len(test.args) == 1 and isinstance(test.args[0], (ast.GeneratorExp, ast.ListComp))):
+        return False
+    ge = test.args[0]
+    if len(ge.generators) != 1 or ge.generators[0].ifs or not isinstance(ge.generators[0].target, ast.Name) or dotted(ge.generators[0].iter) != keysvar:
+        return False
+    k = ge.generators[0].target.id
+    e = ge.elt
+    return isinstance(e, ast.Subscript) and dotted(e.value) == pname and isinstance(e.slice, ast.Name) and e.slice.id == k
+
+
 def check_table(repo: Repo, rep: Report):
     f = repo.func(f"{PG}.identify_pytorch_file_format")
+    # the dict of file properties, whatever the local is called: bound from find_file_properties(...)
+    pn = [t.id for n in body_walk(f.node) if isinstance(n, ast.Assign) and isinstance(n.value, ast.Call) and (dotted(n.value.func) or "").split(".")[-1] == "find_file_properties" for t in n.targets if isinstance(t, ast.Name)]
+    if len(pn) == 1:
+        f = canon_func(f, rename={pn[0]: "properties"})
     file = f.file
     tables = [n for n in body_walk(f.node) if isinstance(n, ast.Assign) and isinstance(n.value, (ast.List, ast.Tuple)) and n.value.elts and all(isinstance(e, ast.Tuple) and len(e.elts) == 2 for e in n.value.elts)]
     if len(tables) != 1:
@@ -182,7 +198,7 @@ def check_table(repo: Repo, rep: Report):
         comp = b.value
         g = comp.generators[0]
         fname = b.targets[0].id
-        ok = len(comp.generators) == 1 and len(g.ifs) == 1 and src(g.ifs[0]) == "all((properties[key] for key in keys))" and isinstance(g.target, ast.Tuple) and dotted(comp.elt) == g.target.elts[1].id and g.target.elts[0].id == "keys"
+        ok = len(comp.generators) == 1 and len(g.ifs) == 1 and isinstance(g.target, ast.Tuple) and len(g.target.elts) == 2 and all(isinstance(x, ast.Name) for x in g.target.elts) and dotted(comp.elt) == g.target.elts[1].id and _all_keys_hold(g.ifs[0], "properties", g.target.elts[0].id)
         if ok:
             rep.ok("C17.table-floor", f.qualname, "formats = every row (in table order) all of whose keys hold", f"{file}:{b.lineno}")
         else:
